@@ -1,4 +1,290 @@
-import Rngs.Model.Xoshiro
+/-
+  C11 — serde round trip.
+
+  "With the serde feature, serializing any serializable generator (the 15 rand_xoshiro types,
+  XorShiftRng, IsaacRng, Isaac64Rng) at any point of any operation history and deserializing
+  the bytes yields a generator that returns exactly the same values as the original under
+  every subsequent operation sequence, including the buffered but unconsumed ISAAC words and a
+  half-consumed ISAAC-64 word, and that compares equal where == is provided.  Serializing does
+  not disturb the original."
+
+  Model: `Rngs.Model.Serde` — the bincode-1 image of each generator and its deserialiser
+  (serde-derive and bincode are modelled, the driver ties the images to the real crates).
+  Image functions and the Rust types that use them:
+      serSplitMix : SplitMix64                                   (one u64)
+      serS2_32    : Xoroshiro64Star, Xoroshiro64StarStar         (2 × u32)
+      serS2_64    : Xoroshiro128Plus, …PlusPlus, …StarStar       (2 × u64)
+      serS4_32    : Xoshiro128Plus, …PlusPlus, …StarStar, and XorShiftRng (x, y, z, w)
+      serS4_64    : Xoshiro256Plus, …PlusPlus, …StarStar         (4 × u64)
+      serS8       : Xoshiro512Plus, …PlusPlus, …StarStar         (8 × u64)
+      serIsaac32  : IsaacRng   = results[256], index, core { mem[256], a, b, c }
+      serIsaac64  : Isaac64Rng = results[256], index, half_used, core { mem[256], a, b, c }
+
+  What is proved.  The model's generator *is* its state (a value of `S2 w`, `S4 w`, `S8`, `U64`,
+  `BlockRng (Core 32)`, `BlockRng64 (Core 64)`), every operation is a function of that value,
+  and `==` is equality of that value.  Hence the whole property follows from
+      de (ser s ++ rest) = some (s, rest)              for every state `s`,
+  which is proved for every state of the eight plain-word images and for every ISAAC state
+  that has its Rust array lengths and an index that fits a `usize` — in particular (section 3)
+  for every state reachable from a constructor by `next_u32`, `next_u64`, `fill_bytes`: every
+  buffer index, `half_used` set or not.  The ISAAC image contains the whole results buffer, the
+  index and `half_used`, so the unconsumed buffered words and the pending high half of a
+  half-consumed ISAAC-64 word are restored with the rest.
+
+  "Serializing does not disturb the original": `ser… : state → List U8` is a pure function; the
+  model has no way to express a side effect on its argument, so there is nothing to state (the
+  Rust `serialize(&self)` takes a shared reference; the driver checks the original's
+  continuation against the real crates).
+-/
+import Rngs.Lib.SerdeLemmas
 namespace Rngs.C11
-theorem placeholder : True := trivial
+open Rngs Rngs.Serde Rngs.SerdeLemmas
+
+/-! ## 1. deserialising an image gives back the state, for every trailing input -/
+
+/-- SplitMix64 -/
+theorem roundtrip_splitMix (x : U64) (rest : List U8) :
+    deSplitMix (serSplitMix x ++ rest) = some (x, rest) := rt_splitMix x trivial rest
+
+/-- Xoroshiro64Star, Xoroshiro64StarStar -/
+theorem roundtrip_S2_32 (s : S2 32) (rest : List U8) :
+    deS2_32 (serS2_32 s ++ rest) = some (s, rest) := rt_S2_32 s trivial rest
+
+/-- Xoroshiro128Plus, Xoroshiro128PlusPlus, Xoroshiro128StarStar -/
+theorem roundtrip_S2_64 (s : S2 64) (rest : List U8) :
+    deS2_64 (serS2_64 s ++ rest) = some (s, rest) := rt_S2_64 s trivial rest
+
+/-- Xoshiro128Plus, Xoshiro128PlusPlus, Xoshiro128StarStar, XorShiftRng -/
+theorem roundtrip_S4_32 (s : S4 32) (rest : List U8) :
+    deS4_32 (serS4_32 s ++ rest) = some (s, rest) := rt_S4_32 s trivial rest
+
+/-- XorShiftRng (`XorShift.State` is `S4 32`) -/
+theorem roundtrip_xorShift (s : XorShift.State) (rest : List U8) :
+    deS4_32 (serS4_32 s ++ rest) = some (s, rest) := rt_S4_32 s trivial rest
+
+/-- Xoshiro256Plus, Xoshiro256PlusPlus, Xoshiro256StarStar -/
+theorem roundtrip_S4_64 (s : S4 64) (rest : List U8) :
+    deS4_64 (serS4_64 s ++ rest) = some (s, rest) := rt_S4_64 s trivial rest
+
+/-- Xoshiro512Plus, Xoshiro512PlusPlus, Xoshiro512StarStar -/
+theorem roundtrip_S8 (s : S8) (rest : List U8) :
+    deS8 (serS8 s ++ rest) = some (s, rest) := rt_S8 s trivial rest
+
+/-- IsaacRng, for every state with the Rust array lengths and an index that fits a `usize`
+    (any index, consumed or not) -/
+theorem roundtrip_isaac32 (r : Isaac.Rng32)
+    (h : r.results.size = 256 ∧ r.core.mem.size = 256 ∧ r.index < 2 ^ 64) (rest : List U8) :
+    deIsaac32 (serIsaac32 r ++ rest) = some (r, rest) := rt_isaac32 r h rest
+
+/-- Isaac64Rng, likewise, `half_used` true or false -/
+theorem roundtrip_isaac64 (r : Isaac.Rng64)
+    (h : r.results.size = 256 ∧ r.core.mem.size = 256 ∧ r.index < 2 ^ 64) (rest : List U8) :
+    deIsaac64 (serIsaac64 r ++ rest) = some (r, rest) := rt_isaac64 r h rest
+
+/-! ## 2. the image determines the state; the restored generator has the same future -/
+
+/-- Generic form: if `de` inverts `ser` on the states satisfying `P`, then whatever `de`
+    returns on the image of such a state `s` is `s` itself with nothing left over — so it
+    compares equal, and EVERY function `f` of the state (every sequence of `next_u32`,
+    `next_u64`, `fill_bytes`, `jump`, `clone`, … and any observation of the results) gives the
+    same answer on the restored generator as on the original. -/
+theorem restored_has_identical_future {σ β : Type} {ser : σ → List U8} {de : De σ} {P : σ → Prop}
+    (h : RoundTrip ser de P) (s s' : σ) (hs : P s) (rest : List U8)
+    (hd : de (ser s) = some (s', rest)) (f : σ → β) : s' = s ∧ rest = [] ∧ f s' = f s :=
+  h.future s s' hs rest hd f
+
+theorem splitMix_identical_future {β : Type} (s s' : U64) (rest : List U8)
+    (hd : deSplitMix (serSplitMix s) = some (s', rest)) (f : U64 → β) :
+    s' = s ∧ rest = [] ∧ f s' = f s := rt_splitMix.future s s' trivial rest hd f
+
+theorem S2_32_identical_future {β : Type} (s s' : S2 32) (rest : List U8)
+    (hd : deS2_32 (serS2_32 s) = some (s', rest)) (f : S2 32 → β) :
+    s' = s ∧ rest = [] ∧ f s' = f s := rt_S2_32.future s s' trivial rest hd f
+
+theorem S2_64_identical_future {β : Type} (s s' : S2 64) (rest : List U8)
+    (hd : deS2_64 (serS2_64 s) = some (s', rest)) (f : S2 64 → β) :
+    s' = s ∧ rest = [] ∧ f s' = f s := rt_S2_64.future s s' trivial rest hd f
+
+/-- also XorShiftRng -/
+theorem S4_32_identical_future {β : Type} (s s' : S4 32) (rest : List U8)
+    (hd : deS4_32 (serS4_32 s) = some (s', rest)) (f : S4 32 → β) :
+    s' = s ∧ rest = [] ∧ f s' = f s := rt_S4_32.future s s' trivial rest hd f
+
+theorem S4_64_identical_future {β : Type} (s s' : S4 64) (rest : List U8)
+    (hd : deS4_64 (serS4_64 s) = some (s', rest)) (f : S4 64 → β) :
+    s' = s ∧ rest = [] ∧ f s' = f s := rt_S4_64.future s s' trivial rest hd f
+
+theorem S8_identical_future {β : Type} (s s' : S8) (rest : List U8)
+    (hd : deS8 (serS8 s) = some (s', rest)) (f : S8 → β) :
+    s' = s ∧ rest = [] ∧ f s' = f s := rt_S8.future s s' trivial rest hd f
+
+theorem isaac32_identical_future {β : Type} (r r' : Isaac.Rng32) (hr : Fits32 r) (rest : List U8)
+    (hd : deIsaac32 (serIsaac32 r) = some (r', rest)) (f : Isaac.Rng32 → β) :
+    r' = r ∧ rest = [] ∧ f r' = f r := rt_isaac32.future r r' hr rest hd f
+
+theorem isaac64_identical_future {β : Type} (r r' : Isaac.Rng64) (hr : Fits64 r) (rest : List U8)
+    (hd : deIsaac64 (serIsaac64 r) = some (r', rest)) (f : Isaac.Rng64 → β) :
+    r' = r ∧ rest = [] ∧ f r' = f r := rt_isaac64.future r r' hr rest hd f
+
+/-- injectivity: two states with the same image are the same state -/
+theorem ser_injective {σ : Type} {ser : σ → List U8} {de : De σ} {P : σ → Prop}
+    (h : RoundTrip ser de P) (a b : σ) (ha : P a) (hb : P b) (e : ser a = ser b) : a = b :=
+  h.inj a b ha hb e
+
+theorem serSplitMix_injective (a b : U64) (e : serSplitMix a = serSplitMix b) : a = b :=
+  rt_splitMix.inj a b trivial trivial e
+theorem serS2_32_injective (a b : S2 32) (e : serS2_32 a = serS2_32 b) : a = b :=
+  rt_S2_32.inj a b trivial trivial e
+theorem serS2_64_injective (a b : S2 64) (e : serS2_64 a = serS2_64 b) : a = b :=
+  rt_S2_64.inj a b trivial trivial e
+theorem serS4_32_injective (a b : S4 32) (e : serS4_32 a = serS4_32 b) : a = b :=
+  rt_S4_32.inj a b trivial trivial e
+theorem serS4_64_injective (a b : S4 64) (e : serS4_64 a = serS4_64 b) : a = b :=
+  rt_S4_64.inj a b trivial trivial e
+theorem serS8_injective (a b : S8) (e : serS8 a = serS8 b) : a = b :=
+  rt_S8.inj a b trivial trivial e
+theorem serIsaac32_injective (a b : Isaac.Rng32) (ha : Fits32 a) (hb : Fits32 b)
+    (e : serIsaac32 a = serIsaac32 b) : a = b := rt_isaac32.inj a b ha hb e
+theorem serIsaac64_injective (a b : Isaac.Rng64) (ha : Fits64 a) (hb : Fits64 b)
+    (e : serIsaac64 a = serIsaac64 b) : a = b := rt_isaac64.inj a b ha hb e
+
+/-! ## 3. every reachable ISAAC state satisfies the hypothesis of the round trip
+
+`Inv32 r` / `Inv64 r`: `results.size = 256 ∧ core.mem.size = 256 ∧ index ≤ 256`. -/
+
+/-- the invariant implies what the round trip needs -/
+theorem inv32_fits (r : Isaac.Rng32) (h : Inv32 r) :
+    r.results.size = 256 ∧ r.core.mem.size = 256 ∧ r.index < 2 ^ 64 := h.fits
+
+theorem inv64_fits (r : Isaac.Rng64) (h : Inv64 r) :
+    r.results.size = 256 ∧ r.core.mem.size = 256 ∧ r.index < 2 ^ 64 := h.fits
+
+/-- constructors: `from_seed`, `seed_from_u64`, `BlockRng::new(core)` for any 256-word core -/
+theorem inv32_constructors :
+    (∀ seed, Inv32 (Isaac.fromSeed32 seed)) ∧ (∀ x, Inv32 (Isaac.seedFromU64_32 x)) ∧
+      (∀ core : Isaac.Core 32, core.mem.size = 256 → Inv32 (BlockRng.new Isaac.blockCore32 core)) :=
+  ⟨inv32_fromSeed, inv32_seedFromU64, inv32_new⟩
+
+theorem inv64_constructors :
+    (∀ seed, Inv64 (Isaac.fromSeed64 seed)) ∧ (∀ x, Inv64 (Isaac.seedFromU64_64 x)) ∧
+      (∀ core : Isaac.Core 64, core.mem.size = 256 → Inv64 (BlockRng64.new Isaac.blockCore64 core)) :=
+  ⟨inv64_fromSeed, inv64_seedFromU64, inv64_new⟩
+
+/-- operations: `next_u32`, `next_u64`, `fill_bytes(n)` preserve the invariant -/
+theorem inv32_preserved (r : Isaac.Rng32) (h : Inv32 r) :
+    Inv32 (BlockRng.nextU32 Isaac.blockCore32 r).2 ∧ Inv32 (BlockRng.nextU64 Isaac.blockCore32 r).2 ∧
+      ∀ n, Inv32 (BlockRng.fillBytes Isaac.blockCore32 n r).2 :=
+  ⟨inv32_nextU32 r h, inv32_nextU64 r h, fun n => inv32_fillBytes n r h⟩
+
+theorem inv64_preserved (r : Isaac.Rng64) (h : Inv64 r) :
+    Inv64 (BlockRng64.nextU32 Isaac.blockCore64 r).2 ∧ Inv64 (BlockRng64.nextU64 Isaac.blockCore64 r).2 ∧
+      ∀ n, Inv64 (BlockRng64.fillBytes Isaac.blockCore64 n r).2 :=
+  ⟨inv64_nextU32 r h, inv64_nextU64 r h, fun n => inv64_fillBytes n r h⟩
+
+/-- an operation history -/
+inductive Op
+  | u32
+  | u64
+  | fill (n : Nat)
+
+def run32 (r : Isaac.Rng32) : List Op → Isaac.Rng32
+  | [] => r
+  | .u32 :: ops => run32 (BlockRng.nextU32 Isaac.blockCore32 r).2 ops
+  | .u64 :: ops => run32 (BlockRng.nextU64 Isaac.blockCore32 r).2 ops
+  | .fill n :: ops => run32 (BlockRng.fillBytes Isaac.blockCore32 n r).2 ops
+
+def run64 (r : Isaac.Rng64) : List Op → Isaac.Rng64
+  | [] => r
+  | .u32 :: ops => run64 (BlockRng64.nextU32 Isaac.blockCore64 r).2 ops
+  | .u64 :: ops => run64 (BlockRng64.nextU64 Isaac.blockCore64 r).2 ops
+  | .fill n :: ops => run64 (BlockRng64.fillBytes Isaac.blockCore64 n r).2 ops
+
+theorem inv32_run (r : Isaac.Rng32) (h : Inv32 r) (ops : List Op) : Inv32 (run32 r ops) := by
+  induction ops generalizing r with
+  | nil => exact h
+  | cons op ops ih =>
+    cases op with
+    | u32 => exact ih _ (inv32_nextU32 r h)
+    | u64 => exact ih _ (inv32_nextU64 r h)
+    | fill n => exact ih _ (inv32_fillBytes n r h)
+
+theorem inv64_run (r : Isaac.Rng64) (h : Inv64 r) (ops : List Op) : Inv64 (run64 r ops) := by
+  induction ops generalizing r with
+  | nil => exact h
+  | cons op ops ih =>
+    cases op with
+    | u32 => exact ih _ (inv64_nextU32 r h)
+    | u64 => exact ih _ (inv64_nextU64 r h)
+    | fill n => exact ih _ (inv64_fillBytes n r h)
+
+/-- **IsaacRng, the property as stated**: for every seed and every operation history, the
+    snapshot taken after the history deserialises to the very same state (whatever follows the
+    image in the input), hence to a generator with the same future. -/
+theorem isaac32_snapshot_roundtrip (seed : List U8) (history : List Op) (rest : List U8) :
+    deIsaac32 (serIsaac32 (run32 (Isaac.fromSeed32 seed) history) ++ rest)
+      = some (run32 (Isaac.fromSeed32 seed) history, rest) :=
+  rt_isaac32 _ (inv32_run _ (inv32_fromSeed seed) history).fits rest
+
+/-- **Isaac64Rng, the property as stated** (includes snapshots with a half-consumed word:
+    any history ending in `next_u32`). -/
+theorem isaac64_snapshot_roundtrip (seed : List U8) (history : List Op) (rest : List U8) :
+    deIsaac64 (serIsaac64 (run64 (Isaac.fromSeed64 seed) history) ++ rest)
+      = some (run64 (Isaac.fromSeed64 seed) history, rest) :=
+  rt_isaac64 _ (inv64_run _ (inv64_fromSeed seed) history).fits rest
+
+/-- the hypotheses are satisfiable: freshly constructed generators -/
+example (seed : List U8) : Fits32 (Isaac.fromSeed32 seed) := (inv32_fromSeed seed).fits
+example (seed : List U8) : Fits64 (Isaac.fromSeed64 seed) := (inv64_fromSeed seed).fits
+example (seed : List U8) : deIsaac32 (serIsaac32 (Isaac.fromSeed32 seed)) = some (Isaac.fromSeed32 seed, []) :=
+  rt_isaac32.exact _ (inv32_fromSeed seed).fits
+/-- a snapshot with `half_used = true` is reachable and round-trips -/
+example (seed : List U8) :
+    (run64 (Isaac.fromSeed64 seed) [.u32]).halfUsed = true ∧
+      deIsaac64 (serIsaac64 (run64 (Isaac.fromSeed64 seed) [.u32]))
+        = some (run64 (Isaac.fromSeed64 seed) [.u32], []) := by
+  refine ⟨?_, rt_isaac64.exact _ (inv64_run _ (inv64_fromSeed seed) [.u32]).fits⟩
+  simp [run64, BlockRng64.nextU32, Isaac.fromSeed64, BlockRng64.new]
+
+/-! ## 4. malformed input -/
+
+/-- every input shorter than the image is rejected … -/
+theorem short_input_rejected (bs : List U8) :
+    (bs.length < 8 → deSplitMix bs = none) ∧ (bs.length < 8 → deS2_32 bs = none) ∧
+    (bs.length < 16 → deS2_64 bs = none) ∧ (bs.length < 16 → deS4_32 bs = none) ∧
+    (bs.length < 32 → deS4_64 bs = none) ∧ (bs.length < 64 → deS8 bs = none) ∧
+    (bs.length < 2068 → deIsaac32 bs = none) ∧ (bs.length < 4129 → deIsaac64 bs = none) :=
+  ⟨(exact_deU64 bs).1, deS2_32_short bs, deS2_64_short bs, deS4_32_short bs, deS4_64_short bs,
+    deS8_short bs, deIsaac32_short bs, deIsaac64_short bs⟩
+
+/-- … in particular every proper prefix of an image -/
+theorem truncated_S4_32_rejected (s : S4 32) (k : Nat) (hk : k < (serS4_32 s).length) :
+    deS4_32 ((serS4_32 s).take k) = none := by
+  apply deS4_32_short
+  have : (serS4_32 s).length = 16 := rfl
+  rw [List.length_take]; omega
+
+theorem truncated_S8_rejected (s : S8) (k : Nat) (hk : k < (serS8 s).length) :
+    deS8 ((serS8 s).take k) = none := by
+  apply deS8_short
+  have : (serS8 s).length = 64 := rfl
+  rw [List.length_take]; omega
+
+theorem truncated_isaac32_rejected (r : Isaac.Rng32) (h : Fits32 r) (k : Nat)
+    (hk : k < (serIsaac32 r).length) : deIsaac32 ((serIsaac32 r).take k) = none := by
+  apply deIsaac32_short
+  rw [serIsaac32_length r h] at hk
+  rw [List.length_take, serIsaac32_length r h]; omega
+
+theorem truncated_isaac64_rejected (r : Isaac.Rng64) (h : Fits64 r) (k : Nat)
+    (hk : k < (serIsaac64 r).length) : deIsaac64 ((serIsaac64 r).take k) = none := by
+  apply deIsaac64_short
+  rw [serIsaac64_length r h] at hk
+  rw [List.length_take, serIsaac64_length r h]; omega
+
+/-- an ISAAC-64 image whose `half_used` byte is neither 0 nor 1 is rejected -/
+theorem isaac64_bad_bool_rejected (results : List U64) (hres : results.length = 256) (index : Nat)
+    (hidx : index < 2 ^ 64) (b : U8) (h0 : b ≠ 0) (h1 : b ≠ 1) (tail : List U8) :
+    deIsaac64 (serU64s results ++ serUsize index ++ [b] ++ tail) = none :=
+  deIsaac64_badBool results hres index hidx b h0 h1 tail
+
 end Rngs.C11
